@@ -6,7 +6,8 @@ import os
 ROOT = os.path.dirname(os.path.dirname(os.path.abspath(__file__)))
 TECH = "dynamic symbolic execution of the real cobra code on z3 (vsym) with an LP-contract stub for the solver"
 NOTE_COMMON = ("Bounded: sizes/values/histories as stated in evidence 'bounds'; exact real arithmetic (float rounding "
-               "outside the claim); trusted: z3 (incl. qe2), the LP optimality contract as a description of GLPK "
+               "outside the claim); trusted: z3 (incl. qe2; a sample of its deciding unsat verdicts is re-decided by the "
+               "z3 4.8.12 and cvc5 binaries, see evidence solver_cross_check), the LP optimality contract as a description of GLPK "
                "(validated on witness replays against real glpk), numpy/pandas object-array semantics, our engine, "
                "stub, shims and oracles. Counterexamples are replayed on the unmodified build with real GLPK before "
                "being reported.")
@@ -18,18 +19,21 @@ CHECKS = {
              "structural choice) of 3-4 reaction templates, every template objective and direction, the solver proves "
              "feasibility of the returned fluxes, objective value = c.v = true optimum (independent KKT oracle), dual "
              "certification by the shadow prices, reduced cost identity, status/exception mapping on infeasible and "
-             "unbounded instances, direction restored, Solution is a snapshot.",
+             "unbounded instances, direction restored, Solution is a snapshot. The same obligations after one edit of the "
+             "operation alphabet (outside / inside / after leaving a context, or: remove a reaction, edit it while detached, "
+             "restore it by leaving the context) against an oracle LP rebuilt from the Python objects.",
         note="Outside: that GLPK itself meets the LP contract (tolerances, numerical statuses); models larger than the "
              "templates. Known finding: reduced costs are exactly 2(c-S^T y) (pinned by a second obligation so that any "
              "other deviation is still reported). " + NOTE_COMMON, ref="4/C04"),
     "C05": dict(
         text="Bounded symbolic execution of flux_variability_analysis (serial) on the stub: for all bounds of templates "
-             "T1-T3 (thorough T4,T7), objective x direction, fraction in {1,9/10,1/2,0}, pfba_factor in {None,1,11/10}, "
+             "T1-T3 (thorough T4,T7), objective x direction, fraction in {1,9/10,1/2,0}, pfba_factor in {None,1,11/10}, loopless on/off, "
              "reaction_list shapes: reported range is sound (no oracle point outside, proved for all bounds at once) and "
              "tight (recorded stub primal of the producing solve attains it), min<=max, index as requested, raises "
              "exactly when no optimum exists, model unchanged.",
-        note="Outside: processes>1 (C14), loopless option pending, fraction<1 with wrong-signed optimum (the "
-             "property's own precondition). " + NOTE_COMMON, ref="4/C05"),
+        note="Outside: processes>1 (C14), fraction<1 with wrong-signed optimum (the property's own precondition). Loopless FVA: "
+             "soundness/tightness of the ranges depend on which optimal vertex the solver returns and are evaluated on the GLPK "
+             "replays only. " + NOTE_COMMON, ref="4/C05"),
     "C15": dict(
         text="One inductive step from an arbitrary valid DictList (n<=3) under each of 28 operations with symbolic "
              "integer arguments (indices, slice fields, payload ids): the solver case-splits every integer that reaches C "
@@ -58,7 +62,9 @@ CHECKS.update({
              "contexts: for every rule shape (16 and/or shapes, depth<=3, shared/duplicate/absorbing genes), every subset of genes "
              "(symbolic flags), order and API variant, and every value of the symbolic original bounds: bounds are (0,0) iff the "
              "independent truth table says the rule is false, all other bounds are proved unchanged, functional flags agree, solver "
-             "variable bounds follow, everything is restored on (inner and outer) context exit.",
+             "variable bounds follow, everything is restored on (inner and outer) context exit; also when the knock-out meets "
+             "state left by earlier ones (gene flag already False through the setter, gene knocked out before and the reactions "
+             "re-opened by the user, gene listed twice).",
         note="Bounded: <=4 genes, <=2 ruled reactions + one rule-less, shapes from a fixed list. " + NOTE_COMMON, ref="4/C07"),
     "C08": dict(
         text="Symbolic knock-out sets (one z3 Bool per gene, forked lazily by the real short-circuit evaluation) through GPR.from_string/"
@@ -82,12 +88,14 @@ CHECKS.update({
 
 CHECKS.update({
     "C01": dict(
-        text="Histories of public operations (31 operations x argument shapes incl. raising variants, enter/exit) on a model whose "
+        text="Histories of public operations (32 operations x argument shapes incl. raising variants, enter/exit; patterned "
+             "histories in which a reaction is removed, edited while detached and brought back by add_reactions or by the context exit) on a model whose "
              "symbolic reaction has symbolic stoichiometric coefficients and bounds; new numeric arguments are fresh symbolic reals. "
              "After every step the LP recorded by the stub is proved to be exactly the split encoding of the flux-balance problem of the "
              "Python objects: one forward/reverse pair per reaction whose net range equals the reaction bounds (+-inf structurally, no "
              "float infinities), one equality row per metabolite with exactly the current coefficients, objective = reported "
-             "coefficients and direction, nothing else except declared user constraints/variables.",
+             "coefficients and direction (and model.objective.expression as read back is that row and mentions no missing "
+             "variable), nothing else except declared user constraints/variables.",
         note="Bounded: histories of length 1 (full alphabet), 2 (sub-alphabet quick, full thorough), 3 (sub-alphabet thorough); one "
              "symbolic reaction. optlang's translation to GLPK, solver cloning and the GLPK text-format copy are trusted base, "
              "cross-checked on witness replays (GLPK problem read back through optlang); 'glpk_exact' and solver switching not "
@@ -111,7 +119,8 @@ CHECKS.update({
              "raising variant. At every exit the full observation (content, objective and direction, LP, cross references, group "
              "membership; list order aside) is proved equal to the one at the matching enter for all values of the symbolic inputs, the "
              "exit must not raise and the context stack is back at its entry depth.",
-        note="Bounded: k=1 full alphabet with symbolic coefficients, all pairs of the sub-alphabet, nesting depth 2 with up to 3 steps "
+        note="Bounded: k=1 full alphabet with symbolic coefficients, all pairs of the sub-alphabet, all triples of bound / knock-out / "
+             "objective-coefficient edits on one reaction, nesting depth 2 with up to 3 steps "
              "(thorough: all pairs of the full alphabet, 4 steps). Undo by 1/k is exact over the reals; scale factors are powers of two so "
              "that float rounding (outside the claim) does not show. Renames are not documented as reversible and are not in the "
              "alphabet. " + NOTE_COMMON, ref="4/C03"),
@@ -140,12 +149,14 @@ CHECKS.update({
              "the other side is proved unchanged; Reaction.copy / Metabolite.copy / + - * / +0 / sum leave operands unchanged and return "
              "detached objects.",
         note="optlang's GLPK deep copy is replaced by the stub's own clone (witness replays exercise the real one). One edit after "
-             "copying (thorough: same, deeper budget). " + NOTE_COMMON, ref="4/C12"),
+             "copying; the model has ids shared between containers (metabolite named like a reaction, group named like a gene). "
+             "Thorough: the copy is taken after a history of one or two operations (inside an open context or not) and must also "
+             "hold exactly its own flux-balance problem; histories that already break C01/C02 on the original are not continued. " + NOTE_COMMON, ref="4/C12"),
     "C13": dict(
         text="One uniform harness over 18 (thorough 24) analyses - optimize, slim_optimize, FVA variants, blocked/essential searches, "
              "pFBA, linear MOMA, single/double deletions, loopless_solution, assess, minimal_medium, summaries, fastcc - called inside or "
              "outside a user context on models whose symbolic bounds make them succeed, report infeasibility or raise part-way, with a "
-             "gene already knocked out, with empty or minimising objectives: the full observation (content, bounds, objective, LP, gene "
+             "gene already knocked out, with empty (assigned empty, or never assigned) or minimising objectives: the full observation (content, bounds, objective, LP, gene "
              "states, context depth) is proved unchanged and a second call returns the same uniquely defined quantities. The analysis "
              "harnesses of C04-C06, C09, C14, C17-C20 carry the same 'model-unchanged' obligation on every path.",
         note="Not applicable parts: gapfill and ROOM (MILP), sampling (float numerics), production_envelope (np.linspace on symbolic "
@@ -155,13 +166,16 @@ CHECKS.update({
              "pool: each worker gets its own unpickled copy of the model and private module globals; which worker takes which chunk and "
              "the completion order are symbolic choices, all explored within the bound; for every schedule and every permutation of the "
              "item list the values equal the serial run's (proved for all bounds), each item alone gives the same value, the worker's "
-             "model is unchanged after every task, the caller's model is unchanged.",
+             "model is unchanged after every task, the caller's model is unchanged; also when the same model object was screened "
+             "serially before with other bounds (nothing of an earlier call may survive in the process).",
         note="NOT claimed: the OptGP sampling sentence (float numerics) and the operating system's real scheduling / pickling across "
              "processes - the pool is a stub implementing the documented multiprocessing.Pool contract. Bounded: 2 (thorough 3) workers, "
              "3-4 items. " + NOTE_COMMON, ref="4/C14"),
     "C17": dict(
         text="loopless_solution on the stub, templates with 2- and 3-cycles and every reversibility pattern reachable through the signs "
-             "of the symbolic bounds, start vector = the solver's optimum or a symbolic vector assumed feasible and optimal: result is "
+             "of the symbolic bounds, objective on a boundary reaction or on a reaction of the cycle, start vector = the solver's optimum "
+             "or a symbolic vector assumed feasible and optimal (given in model order or reversed, with or without another problem "
+             "having been solved last): result is "
              "steady-state, in bounds, same objective value and boundary fluxes, no sign flip or growth per reaction, and no steady-state "
              "distribution with the same boundary fluxes/objective/signs and smaller total flux exists (proved universally).",
         note="NOT claimed: add_loopless (binary indicator variables, big-M, float SVD null space) - MILP, outside the LP contract. "
@@ -174,8 +188,8 @@ CHECKS.update({
         note="NOT claimed: minimize_components (binary variables). Forced-import situations where the setter must fail are a stated "
              "precondition. " + NOTE_COMMON, ref="4/C18"),
     "C19": dict(
-        text="find_blocked_reactions (pre-filter, FVA, masks; reaction_list shapes; open_exchanges) on T6/T3/T2 with 3-4 symbolic "
-             "reactions whose bounds span zero: reported => no steady-state distribution carries flux (universal), not reported => some "
+        text="find_blocked_reactions (pre-filter, FVA, masks; reaction_list shapes; open_exchanges; model solved before the bounds were "
+             "set, or never) on T6/T3/T2 with 3-4 symbolic reactions whose bounds span zero: reported => no steady-state distribution carries flux (universal), not reported => some "
              "does (existential, by quantifier elimination); fastcc: kept reactions unchanged, can carry flux, no orphans, input unchanged.",
         note="fastcc completeness depends on which optimal solution the solver returns and is evaluated on the concrete GLPK replays "
              "of the explored paths only (known finding: reversible non-blocked reactions are dropped). Tolerance discipline: finite "
@@ -185,9 +199,10 @@ CHECKS.update({
              "optional symbolic FVA frame through the real pandas code on object columns: every boundary reaction / reaction of the "
              "metabolite exactly once on the side given by the sign of flux x coefficient, listed flux = flux x coefficient, objective "
              "value, production = consumption, percentages sum to one (the only nonlinear queries), FVA ranges scaled and swapped like the "
-             "flux.",
-        note="Rendering (to_string / to_html / to_frame / _repr_html_) formats floats and is exercised on the concrete witness of every "
-             "explored path class, not symbolically. Fluxes are 0 or at least 1e-3 in magnitude (display cutoff discipline). "
+             "flux. With the solution defaulted to pFBA (real pfba on the stub): objective value = optimum of the model as it stands, "
+             "listed fluxes belong to one of its optima - also after an earlier summary and a stoichiometry edit.",
+        note="Rendering (to_string / to_html / to_frame / _repr_html_; three times, names on and off; must leave the summary's tables "
+             "unchanged) formats floats and is exercised on the concrete witness of every explored path class, not symbolically. Fluxes are 0 or at least 1e-3 in magnitude (display cutoff discipline). "
              + NOTE_COMMON, ref="4/C20"),
 })
 
